@@ -4,6 +4,8 @@
 # property's harness against the copy and runs the quick tier. Never touches /repo.
 # Scratch: /var/tmp/mut/{repo,h,target,verif}. Remove with: rm -rf /var/tmp/mut
 set -u
+# serialize users of the scratch tree
+exec 9>/var/tmp/mut.lock; flock 9
 PID=$1; PATCH=$(realpath "$2"); shift 2
 M=/var/tmp/mut
 mkdir -p $M
